@@ -253,6 +253,10 @@ def verify_group(gname, scratch, rlimit=30):
         # proof hints that no longer type-check on this tree are dropped and the rest is verified without them
         bad = set(h for t in tool for h in t.get("hints", []))
         if tool and bad and not bad <= disabled:
+            if os.environ.get("VX_SHOW_DROPPED"):
+                for t in tool:
+                    if t.get("hints"):
+                        print("DROPPED HINT:", t["hints"], "\n", t["rendered"][:1500])
             disabled |= bad
             continue
         break
